@@ -48,7 +48,12 @@ def run_one(prop, patch, tier, seed="1"):
         rc, out = sh(["go", "test", "-vet=off", "-count=1", "./..."], cwd=REPO)
         res["suite"] = "pass" if rc == 0 else "FAIL"
         t0 = time.time()
+        # the evidence file must keep describing a run on the unchanged tree
+        evf = os.path.join(ROOT, "evidence", prop + ".json")
+        keep = open(evf, "rb").read() if os.path.exists(evf) else None
         rc, out = sh([os.path.join(ROOT, "check"), prop, tier], cwd=ROOT, env=dict(ENV, VERIF_SEED=seed))
+        if keep is not None:
+            open(evf, "wb").write(keep)
         res["check_exit"] = rc
         res["wall"] = round(time.time() - t0, 1)
         v = [l for l in out.splitlines() if l.startswith("VIOLATION") or l.strip().startswith("sig=")]
